@@ -1155,6 +1155,16 @@ class _Ops:
     def pred_replaces(self, x: H):
         """update() of a generic transform with predicted parameters *replaces* its members' parameters:
         for inverse pairs of those members this is a replacement, not an in-place change."""
+        # a generic transform and its *unlinked* inverse that kept the predictor (inverse(link=False) of a transform with
+        # callable parameters) both re-predict from the same callable and conditioning: the replacement of the member
+        # parameters by a prediction does not separate this pair (it does separate pairs of the members themselves)
+        keep = []
+        for p_ in self.pairs:
+            T_, I_ = self.h.get(p_.t), self.h.get(p_.i)
+            if p_.valid and not p_.link and T_ is not None and I_ is not None and generic_pred(T_.obj) and generic_pred(I_.obj) \
+                    and isinstance(T_.obj, GenericSpatialTransform) and isinstance(I_.obj, GenericSpatialTransform):
+                keep.append((p_, p_.changed_since))
+
         def rec(t):
             if isinstance(t, CompositeTransform):
                 if generic_pred(t):
@@ -1165,6 +1175,8 @@ class _Ops:
                 for m in t.transforms():
                     rec(m)
         rec(x.obj)
+        for p_, ch_ in keep:
+            p_.valid, p_.why, p_.changed_since = True, "", ch_
 
     def links_synced(self, x: H) -> bool:
         """Linked members read the *cached* prediction of their target; that is only well defined
@@ -3142,6 +3154,13 @@ class _Gen:
                 kw["stride"] = [2, 3] if D == 2 else [2, 3, 2]
             elif st is not None:
                 kw["stride"] = st
+            others = [y for y in self.live() if not y.is_comp and family(y.obj) == "spline"]
+            if others and rng.chance(0.5):
+                # a second spline model with the stride of one that exists and the other kernel layout (what two models
+                # of one process may share by mistake is keyed by such options)
+                o_ = rng.choice(others).obj
+                kw["stride"] = [int(v_) for v_ in o_.stride]
+                kw["transpose"] = not bool(o_._transpose)
             if name in VELOCITY:
                 kw["steps"] = rng.choice([None, 5, 6])
                 kw["scale"] = rng.choice([None, None, 0.5, 1.0])
@@ -3159,6 +3178,12 @@ class _Gen:
             op["config"] = {"transform": model, "affine_model": aff, "control_point_spacing": cps,
                             "scaling_and_squaring_steps": rng.choice([5, 6]), "rotation_model": rng.choice(["ZXZ", "ZXZ", "XYZ", "ZYX", "XZX"])}
             kind = rng.weighted([("P", 3), ("B", 2), ("C", 4)])
+            if D == 3 and rng.chance(0.5):
+                # predictions given in reversed (z, y, x) coordinate order (the conversion of predicted Euler angles is
+                # written for 3-D only: in 2-D the unchanged library raises inside _data(), DESIGN.md section 4.3)
+                op["config"]["flip_grid_coords"] = True
+                if op["config"]["rotation_model"] not in ("ZXZ", "XZX"):
+                    op["config"]["rotation_model"] = "ZXZ"  # euler_rotation_angles() implements these two orders only
             if kind == "C" and "K" in aff:
                 aff = aff.replace("K", "")  # predicted shearing is not supported by GenericSpatialTransform._data (see DESIGN.md section 4)
                 op["config"]["affine_model"] = aff
@@ -3179,7 +3204,9 @@ class _Gen:
         sc = self.sc
         live = self.live()
         if not live or (self.n_roots < sc["max_roots"] and rng.chance(0.06)):
-            return self.root_op(rng)
+            op = self.root_op(rng)
+            self.last_kind, self.last_new_hid = "new", op.get("out")
+            return op
         W = dict(PROFILES[sc["profile"]])
         for k, m in sc["weights"].items():
             W[k] = W.get(k, 0) * m
@@ -3232,6 +3259,13 @@ class _Gen:
             if rng.chance(0.3):
                 op.update({"via": "inv", "link": True, "ub": True})
             return op
+        if last == "new":
+            xn = self.get(getattr(self, "last_new_hid", None))
+            if xn is not None and isinstance(xn.obj, GenericSpatialTransform) and offers_inverse(xn.obj) and len(live) < sc["max_handles"] \
+                    and rng.chance(0.5 if sc["profile"] == "C07" else 0.2):
+                # a configurable transform is inverted as a whole right away (its configuration travels with the inverse)
+                self.last_kind = "inverse"
+                return {"op": "inverse", "h": xn.hid, "link": bool(rng.chance(0.4)), "ub": bool(rng.chance(0.5)), "out": self.alloc(HID_BLOCK)}
         if last == "restore" and hot0 is not None and rng.chance(0.6):
             idxs = [i_ for i_, p_ in enumerate(self.pairs) if p_.valid and p_.t == hot0.hid and self.get(p_.i)]
             if idxs:
